@@ -281,10 +281,10 @@ impl<T> TypeInfo for Box<T>
 where
     T: TypeInfo + ?Sized + 'static,
 {
-    type Identity = T;
+    type Identity = T::Identity;
 
     fn type_info() -> Type {
-        Self::Identity::type_info()
+        T::type_info()
     }
 }
 
@@ -292,10 +292,10 @@ impl<T> TypeInfo for Rc<T>
 where
     T: TypeInfo + ?Sized + 'static,
 {
-    type Identity = T;
+    type Identity = T::Identity;
 
     fn type_info() -> Type {
-        Self::Identity::type_info()
+        T::type_info()
     }
 }
 
@@ -303,10 +303,10 @@ impl<T> TypeInfo for Arc<T>
 where
     T: TypeInfo + ?Sized + 'static,
 {
-    type Identity = T;
+    type Identity = T::Identity;
 
     fn type_info() -> Type {
-        Self::Identity::type_info()
+        T::type_info()
     }
 }
 
@@ -314,10 +314,10 @@ impl<T> TypeInfo for &T
 where
     T: TypeInfo + ?Sized + 'static,
 {
-    type Identity = T;
+    type Identity = T::Identity;
 
     fn type_info() -> Type {
-        Self::Identity::type_info()
+        T::type_info()
     }
 }
 
@@ -325,10 +325,10 @@ impl<T> TypeInfo for &mut T
 where
     T: TypeInfo + ?Sized + 'static,
 {
-    type Identity = T;
+    type Identity = T::Identity;
 
     fn type_info() -> Type {
-        Self::Identity::type_info()
+        T::type_info()
     }
 }
 
